@@ -222,7 +222,7 @@ func (allocConcEngine) Run(ctx *fw.Ctx, cs any) {
 		ctx.Count("allocconc.porcupine_unknown", 1)
 	case porcupine.Illegal:
 		h := describeHistory(ops, allocModel(c.Blocks))
-		for _, p := range []string{"C04", "C06", "C16"} {
+		for _, p := range []string{"C04", "C05", "C06", "C07", "C16"} {
 			ctx.Viol(p, "alloc-history-not-linearizable", "pool of %d blocks (v4=%v /%d->/%d), %d goroutines: the recorded Allocate/Free history has no sequential explanation (a block held by one caller was handed to another, capacity was misjudged, or a hint on a free block was not honoured)\n%s", c.Blocks, c.V4, c.PoolLen, c.Page, c.G, h)
 		}
 	}
